@@ -65,8 +65,8 @@ Definition eval (P : poly) (v : T) : T :=
 (* diff: P[i] = Q[i+1] * (1+...+1), size deg Q, no setdegree *)
 Fixpoint diff_aux (c : T) (L : poly) : poly :=
   match L with [] => [] | a :: L' => let c' := add_ c I_ in mul_ a c' :: diff_aux c' L' end.
-Definition diff (Q : poly) : poly :=
-  match setdegree Q with [] => [] | _ :: L => diff_aux O_ L end.
+Definition diff (Q : poly) : poly :=      (* REPAIRED (frag/C08.fix-11.diff): ends in setdegree *)
+  match setdegree Q with [] => [] | _ :: L => setdegree (diff_aux O_ L) end.
 Definition reverse (Q : poly) : poly := setdegree (rev Q).
 
 (* ---------------- givpoly1addsub.inl ---------------- *)
@@ -78,11 +78,11 @@ Fixpoint add (P Q : poly) : poly :=
   | a :: P', b :: Q' => add_ a b :: add P' Q'
   end.
 (* addin(R,P): P empty -> R; R empty -> assign(R,P) (stripped); otherwise entrywise, no setdegree *)
-Definition addin (R P : poly) : poly :=
+Definition addin (R P : poly) : poly :=      (* REPAIRED (frag/C08.fix-10.diff): the entrywise branch ends in setdegree *)
   match P, R with
   | [], _ => R
   | _, [] => setdegree P
-  | _, _ => add R P
+  | _, _ => setdegree (add R P)
   end.
 Definition neg (P : poly) : poly := map neg_ P.
 (* sub(R,P,Q): no setdegree *)
@@ -96,9 +96,15 @@ Fixpoint sub (P Q : poly) : poly :=
 Definition subin (R P : poly) : poly :=
   match P, R with
   | [], _ => R
-  | _, [] => neg P
+  | _, [] => setdegree (neg P)      (* REPAIRED (frag/C08.fix-10.diff): was neg(R,P) without setdegree *)
   | _, _ => setdegree (sub R P)
   end.
+(* the public add(R,P,Q) / sub(R,P,Q): REPAIRED (frag/C08.fix-10.diff): the entrywise branch ends in setdegree
+   (`add`/`sub` above are the raw entrywise operations, used by the iterator forms and by the specification) *)
+Definition add_pub (P Q : poly) : poly :=
+  match P, Q with [], _ => Q | _, [] => P | _, _ => setdegree (add P Q) end.
+Definition sub_pub (P Q : poly) : poly :=
+  match P, Q with _, [] => P | [], _ => neg Q | _, _ => setdegree (sub P Q) end.
 (* subin(R, Rbeg, Rend, P, Pbeg, Pend) used with [Rbeg,Rend) = all of R *)
 Definition subin_range (R P : poly) : poly :=
   match P with
@@ -109,27 +115,28 @@ Definition subin_range (R P : poly) : poly :=
 (* add(R,P,Val), add(R,Val,P): REPAIRED behaviour (frag/C08.fix-3.diff): the emptiness test is isZero(P)
    (P stripped first); as written the code tested P.size()==0 and wrote R[0] of an empty vector for P = [0] *)
 Definition add_s (P : poly) (v : T) : poly :=
-  match assign P with
-  | [] => [v]
-  | p0 :: R' => add_ p0 v :: R'
-  end.
+  setdegree (match assign P with
+             | [] => [v]
+             | p0 :: R' => add_ p0 v :: R'
+             end).
 Definition addin_s (R : poly) (v : T) : poly :=
-  match R with [] => [v] | r0 :: R' => add_ r0 v :: R' end.
+  setdegree (match R with [] => [v] | r0 :: R' => add_ r0 v :: R' end).
 Definition sub_s (P : poly) (v : T) : poly :=
-  match assign P with
-  | [] => [neg_ v]
-  | p0 :: R' => sub_ p0 v :: R'
-  end.
+  setdegree (match assign P with
+             | [] => [neg_ v]
+             | p0 :: R' => sub_ p0 v :: R'
+             end).
 Definition subin_s (R : poly) (v : T) : poly :=
-  match R with [] => [neg_ v] | r0 :: R' => sub_ r0 v :: R' end.
+  setdegree (match R with [] => [neg_ v] | r0 :: R' => sub_ r0 v :: R' end).
 Definition s_sub (v : T) (P : poly) : poly :=
-  match P with
-  | [] => [v]                                 (* REPAIRED (frag/C08.fix-9.diff): the code stores -Val *)
-  | p0 :: P' => sub_ v p0 :: neg P'           (* neg(R,P); R[0] = Val - P[0]: REPAIRED (frag/C08.fix-1.diff; the code adds) *)
-  end.
+  setdegree (match P with
+             | [] => [v]                       (* REPAIRED (fix-9): the code stored -Val *)
+             | p0 :: P' => sub_ v p0 :: neg P' (* neg(R,P); R[0] = Val - P[0]: REPAIRED (fix-1; the code added) *)
+             end).
+(* all scalar forms: REPAIRED (frag/C08.fix-10.diff) to end in setdegree *)
 
 (* ---------------- givpoly1muldiv.inl: scalar products ---------------- *)
-Definition mul_s (P : poly) (u : T) : poly := map (fun a => mul_ a u) P.     (* mul(R,P,u), mulin(R,u) *)
+Definition mul_s (P : poly) (u : T) : poly := setdegree (map (fun a => mul_ a u) P).     (* mul(R,P,u), mulin(R,u); REPAIRED (fix-11): setdegree *)
 Definition div_s (P : poly) (u : T) : poly := setdegree (map (fun a => ddiv a u) P).  (* div(R,P,u), divin(R,u) *)
 
 (* ---------------- givpoly1kara.inl ---------------- *)
@@ -269,7 +276,7 @@ Section WithThr.
 Variables (kthr sthr : nat).
 Definition newtoninviter (G A : poly) (i : nat) : poly :=
   let S := sqr kthr sthr G in
-  let G2 := add G G in
+  let G2 := addin G G in
   let Ar := firstn (Nat.min i (length A)) A in
   let Am := mul_r (length Ar) kthr i Ar S in
   subin G2 Am.
@@ -298,7 +305,7 @@ Definition div (A0 B0 : poly) : poly :=
     let Q := mul_r (length S) kthr degX S Ta in
     setdegree (rev Q).                                        (* reversein *)
 Definition pmulK := mul kthr.
-Definition maxpy (a b c : poly) : poly := sub c (pmulK a b).   (* axpy.inl: r = c - a*b *)
+Definition maxpy (a b c : poly) : poly := sub_pub c (pmulK a b).   (* axpy.inl: r = c - a*b *)
 Definition divmod (A0 B0 : poly) : poly * poly :=
   let A := setdegree A0 in let B := setdegree B0 in      (* stripped in place by div's degree() calls *)
   let Q := div A B in (Q, maxpy Q B A).
@@ -445,8 +452,8 @@ Fixpoint egcd_loop (fuel : nat) (F G S0 S1 T0 T1 : poly) : poly * poly * poly * 
       let r1 := lc1 R1 in
       let F' := assign G in
       let G' := div_s R1 r1 in
-      let S1' := div_s (sub S0 (pmulK Q S1)) r1 in
-      let T1' := div_s (sub T0 (pmulK Q T1)) r1 in
+      let S1' := div_s (sub_pub S0 (pmulK Q S1)) r1 in
+      let T1' := div_s (sub_pub T0 (pmulK Q T1)) r1 in
       egcd_loop f F' G' (assign S1) S1' (assign T1) T1'
   end.
 (* gcd(F,S0,T0,A,B): returns (F,S0,T0) *)
@@ -471,7 +478,7 @@ Fixpoint invmod_loop (fuel : nat) (F G S0 S1 : poly) : poly :=
     else
       let '(Q, R1) := divmod F G in
       let r1 := lc1 R1 in
-      invmod_loop f (assign G) (div_s R1 r1) (assign S1) (div_s (sub S0 (pmulK Q S1)) r1)
+      invmod_loop f (assign G) (div_s R1 r1) (assign S1) (div_s (sub_pub S0 (pmulK Q S1)) r1)
   end.
 Definition invmod (A B : poly) : poly :=
   let degF := degree A in let degG := degree B in
@@ -487,7 +494,7 @@ Fixpoint invmodunit_loop (fuel : nat) (F G S0 S1 : poly) : poly :=
     if isZero G then S0
     else
       let '(Q, R1) := divmod F G in
-      invmodunit_loop f (assign G) (assign R1) (assign S1) (assign (sub S0 (pmulK Q S1)))
+      invmodunit_loop f (assign G) (assign R1) (assign S1) (assign (sub_pub S0 (pmulK Q S1)))
   end.
 Definition invmodunit (A B : poly) : poly :=
   if (degree A <=? 0)%Z || (degree B <=? 0)%Z then const I_
@@ -540,7 +547,7 @@ Definition modpowx (A : poly) (l : nat) : poly := setdegree (resize l (assign A)
 (* div(R,u,P), mod(R,u,P): scalar dividend *)
 Definition div_sp (u : T) (P : poly) : poly :=
   if is0 u then [] else if 1 <? length P then [] else setdegree [ddiv u (coef P 0)].
-Definition mod_sp (u : T) (P : poly) : poly := if 1 <? length P then [u] else [].
+Definition mod_sp (u : T) (P : poly) : poly := if 1 <? length P then setdegree [u] else [].
 (* mul(R,P,Q,Val,deg): coefficients Val..deg of the product, by the double loop of the code *)
 Fixpoint trunc_row (P Q : poly) (j : nat) (k : Z) (cnt : nat) (acc : T) : T :=
   match cnt with
@@ -590,12 +597,14 @@ Definition interp_step (st : poly * poly * list T * list T) (xf : T * T) : poly 
 Definition interpolate (xs fs : list T) : poly :=
   let '(inter, _, _, _) := fold_left interp_step (combine xs fs) ([], [I_], [], []) in inter.
 
-Fixpoint axpy_s (a : T) (x y : poly) : poly :=                               (* a*x + y entrywise, no setdegree *)
+Fixpoint axpy_s_raw (a : T) (x y : poly) : poly :=                               (* a*x + y entrywise *)
   match x, y with
   | [], _ => y
   | _, [] => map (mul_ a) x
-  | xi :: x', yi :: y' => add_ (mul_ a xi) yi :: axpy_s a x' y'
+  | xi :: x', yi :: y' => add_ (mul_ a xi) yi :: axpy_s_raw a x' y'
   end.
+(* axpy(r,a,x,y), axpyin(r,a,x) with a scalar a: REPAIRED (frag/C08.fix-11.diff) to end in setdegree *)
+Definition axpy_s (a : T) (x y : poly) : poly := setdegree (axpy_s_raw a x y).
 (* ---------------- givpoly1crt.h: ComputeCk, RingToRns, RnsToRing ---------------- *)
 Fixpoint crt_ck (prod : poly) (prev : T) (rest : list T) : list poly :=     (* _ck[1..Size-1] *)
   match rest with
@@ -662,9 +671,9 @@ Definition zp_monomial p := monomial (ZpDom p).
 Definition zp_eval p := eval (ZpDom p).
 Definition zp_diff p := diff (ZpDom p).
 Definition zp_reverse p := reverse (ZpDom p).
-Definition zp_add p := add (ZpDom p).
+Definition zp_add p := add_pub (ZpDom p).
 Definition zp_neg p := neg (ZpDom p).
-Definition zp_sub p := sub (ZpDom p).
+Definition zp_sub p := sub_pub (ZpDom p).
 Definition zp_subin p := subin (ZpDom p).
 Definition zp_add_s p := add_s (ZpDom p).
 Definition zp_addin_s p := addin_s (ZpDom p).
@@ -707,7 +716,7 @@ Definition zp_addin p := addin (ZpDom p).
 Definition zp_isDivisor p := isDivisor (ZpDom p).
 Definition zp_modpowx p := modpowx (ZpDom p).
 Definition zp_div_sp p := div_sp (ZpDom p).
-Definition zp_mod_sp (p : Z) := @mod_sp Z.
+Definition zp_mod_sp p := mod_sp (ZpDom p).
 Definition zp_mul_trunc p := mul_trunc (ZpDom p).
 Definition zp_power_compose p := power_compose (ZpDom p).
 Definition zp_interpolate p := interpolate (ZpDom p).
